@@ -110,6 +110,8 @@ def build(scratch):
 # --------------------------------------------------------------------------
 Y0_MULT = [0.0, 0.25, 1.5, 7.0, 1e-3]
 FRACS = [0.0, 1e-12, 0.5, 1 - 1e-12]
+# the ladder stratum also lets a call fail after it has reached its whole target (seeded change c19z)
+LADDER_FRACS = FRACS + [1.0]
 
 
 def gen_dt(rng):
@@ -261,7 +263,7 @@ def ladder_stratum():
             for sub in range(1, NSUB[level] + 1):
                 solves = []
                 for fl in flags:
-                    for fr in FRACS:
+                    for fr in LADDER_FRACS:
                         outcomes = []
                         for _l in range(level):
                             outcomes.append([-1, 0.5])
@@ -269,7 +271,7 @@ def ladder_stratum():
                         solves.append({"mode": 0, "reset": 0, "mxsteps": 500, "dt": 3.0e10 * (1 + sub),
                                        "y0c": [0.0, 0.25, 1.5, 7.0, 3.0], "outcomes": outcomes,
                                        "reinit_fail": [], "setup": [-1, 0]})
-                # 32 solves on one object: group by 4 to keep runs short
+                # 40 solves on one object: group by 4 to keep runs short
                 for i in range(0, len(solves), 4):
                     runs.append({"variant": variant, "nsys": 1, "solves": solves[i:i + 4],
                                  "origin": ["ladder", level, sub, i // 4]})
